@@ -327,7 +327,10 @@ class Run:
             "wall_s": round(time.time() - self.t0, 2),
             "violations": violations,
         }
-        with open(os.path.join(ROOT, "evidence", self.pid + ".json"), "w") as f:
+        # evidence/ describes /repo itself: a run against another checkout (VERIF_REPO, mutation tests) writes elsewhere
+        evdir = os.path.join(ROOT, "evidence") if os.path.realpath(vlib.REPO) == "/repo" else os.path.join(vlib.BUILD, "evidence")
+        os.makedirs(evdir, exist_ok=True)
+        with open(os.path.join(evdir, self.pid + ".json"), "w") as f:
             json.dump(ev, f, indent=1)
 
     def replay(self, path):
